@@ -91,7 +91,13 @@ func c08Assets() []byte {
 		{"uuid": flowUUID(3), "name": "registration", "spec_version": "13.6.0", "language": "eng", "type": "messaging", "nodes": []M{}},
 		{"uuid": flowUUID(4), "name": "REGISTRATION", "spec_version": "13.6.0", "language": "eng", "type": "messaging", "nodes": []M{}}},
 		"fields": []M{{"uuid": "f1b5aea6-6586-41c7-9020-1a6326cc6565", "key": "base", "name": "Base", "type": "text"},
-			{"uuid": "f1b5aea6-6586-41c7-9020-1a6326cc6566", "key": "home", "name": "Home", "type": "district"}},
+			{"uuid": "f1b5aea6-6586-41c7-9020-1a6326cc6566", "key": "home", "name": "Home", "type": "district"},
+			// several fields of each location type: a bare district / ward name is resolved under "the" state / district field
+			{"uuid": "f1b5aea6-6586-41c7-9020-1a6326cc6567", "key": "state_b", "name": "State B", "type": "state"},
+			{"uuid": "f1b5aea6-6586-41c7-9020-1a6326cc6568", "key": "state_a", "name": "State A", "type": "state"},
+			{"uuid": "f1b5aea6-6586-41c7-9020-1a6326cc6569", "key": "state_c", "name": "State C", "type": "state"},
+			{"uuid": "f1b5aea6-6586-41c7-9020-1a6326cc656a", "key": "work", "name": "Work", "type": "district"},
+			{"uuid": "f1b5aea6-6586-41c7-9020-1a6326cc656b", "key": "ward_x", "name": "Ward X", "type": "ward"}},
 		// same-named districts and wards under different parents
 		"locations": []M{{"name": "Country", "aliases": []string{}, "children": []M{
 			{"name": "North", "aliases": []string{"Top"}, "children": []M{{"name": "Springfield", "aliases": []string{"Spring"}, "children": []M{{"name": "Centre"}, {"name": "Mill"}}}, {"name": "Shelby", "children": []M{{"name": "Centre"}}}}},
@@ -198,7 +204,8 @@ func c08Scenarios() []scenario {
 			}
 		}
 		c := contactJSON()
-		c["fields"] = M{"home": M{"text": "Springfield", "state": "Country > South", "district": "Country > South > Springfield"}}
+		c["fields"] = M{"home": M{"text": "Springfield", "state": "Country > South", "district": "Country > South > Springfield"},
+			"state_a": M{"text": "North", "state": "Country > North"}, "state_b": M{"text": "South", "state": "Country > South"}, "state_c": M{"text": "North", "state": "Country > North"}}
 		t := M{"type": "manual", "flow": M{"uuid": flowUUID(2), "name": "Registration"}, "contact": c, "triggered_on": "2018-07-06T12:00:00Z"}
 		trig, err := readTrigger(sa, mustJSON(t))
 		if err != nil {
@@ -217,6 +224,16 @@ func c08Scenarios() []scenario {
 			`@(has_district("Springfield", "South").match)`, `@(has_district("Springfield", "North").match)`, `@fields.home`, `@(has_group(contact.groups, "nope"))`} {
 			v, _ := s.Runs()[0].EvaluateTemplate(tpl, func(e flows.Event) { b.WriteString("  ! " + string(jsonx.MustMarshal(e)) + "\n") })
 			b.WriteString(tpl + " -> " + v + "\n")
+		}
+		// a bare district / ward name typed into a location field: which state / district it is looked up under
+		for _, fv := range [][2]string{{"work", "Springfield"}, {"work", "Shelby"}, {"ward_x", "Centre"}, {"work", "Ogden"}} {
+			fld := sa.Fields().Get(fv[0])
+			if fld == nil {
+				b.WriteString(fv[0] + " => no such field\n")
+				continue
+			}
+			v := s.Contact().Fields().Parse(s.MergedEnvironment(), sa.Fields(), fld, fv[1])
+			b.WriteString(fv[0] + " := " + fv[1] + " => " + string(jsonx.MustMarshal(v)) + "\n")
 		}
 		for _, name := range []string{"registration", "Determinism", "nope"} {
 			f, err := sa.Flows().FindByName(name)
